@@ -7,23 +7,36 @@
 (* Values are integers (exact in double); halves are carried as 2x values. *)
 (* Part of the "change stepper/tolerances" alphabet of C10: these calls    *)
 (* must not touch the clock or the state, and read back what was set.      *)
+(* Evolve(k) advances the elapsed time by k units whatever the controls    *)
+(* are, and leaves the controls alone (the solver hands h to GSL by value  *)
+(* and never reads it back): the state after a history is the flow over    *)
+(* el units - a function of el only (C10) - so the replay compares it with *)
+(* the exact flow of SolverFlow whenever el is a whole number of ticks.    *)
+(* The re-centring rule is homogeneous, so the replay may read the values  *)
+(* in any unit (integers, or 2^-10 of a tick when Evolve is in the game).  *)
 (***************************************************************************)
 EXTENDS Integers, Sequences, TLC, Json
-CONSTANTS Vals, MaxOps
-VARIABLES h2, hmin2, hmax2, nops, hist      \* twice the values (so that (a+b)/2 stays an integer)
-vars == <<h2, hmin2, hmax2, nops, hist>>
-Init == h2 = 2 /\ hmin2 = 0 /\ hmax2 = 2000000 /\ nops = 0 /\ hist = <<>>
+CONSTANTS Vals, MaxOps, EVals, MaxEl
+VARIABLES h2, hmin2, hmax2, nops, hist, el      \* twice the values (so that (a+b)/2 stays an integer)
+vars == <<h2, hmin2, hmax2, nops, hist, el>>
+Init == h2 = 2 /\ hmin2 = 0 /\ hmax2 = 2000000 /\ nops = 0 /\ hist = <<>> /\ el = 0
 Recentre(mn2, mx2) == IF mx2 < 50 * mn2 THEN (mn2 + mx2) \div 2 ELSE mn2 * 10
-SetH(v) == h2' = 2*v /\ UNCHANGED <<hmin2, hmax2>> /\ hist' = Append(hist, <<"h", v>>)
+SetH(v) == h2' = 2*v /\ UNCHANGED <<hmin2, hmax2, el>> /\ hist' = Append(hist, <<"h", v>>)
 SetHMin(v) == /\ hmin2' = 2*v /\ hmax2' = hmax2
               /\ h2' = IF h2 < 2*v THEN Recentre(2*v, hmax2) ELSE h2
-              /\ hist' = Append(hist, <<"hmin", v>>)
+              /\ hist' = Append(hist, <<"hmin", v>>) /\ el' = el
 SetHMax(v) == /\ hmax2' = 2*v /\ hmin2' = hmin2
               /\ h2' = IF h2 > 2*v THEN Recentre(hmin2, 2*v) ELSE h2
-              /\ hist' = Append(hist, <<"hmax", v>>)
+              /\ hist' = Append(hist, <<"hmax", v>>) /\ el' = el
+\* h = 0 is not a configuration GSL accepts (no driver can be made for a zero initial step): Evolve is then outside the
+\* property.  It is reachable through the setters: Set_h_min(0) followed by Set_h_max below h re-centres h to 10*0.
+Evolve(k) == /\ h2 > 0 /\ el + k <= MaxEl /\ el' = el + k
+             /\ UNCHANGED <<h2, hmin2, hmax2>>
+             /\ hist' = Append(hist, <<"ev", k>>)
 Next == /\ nops < MaxOps /\ nops' = nops + 1
-        /\ \E v \in Vals : SetH(v) \/ SetHMin(v) \/ SetHMax(v)
+        /\ \/ \E v \in Vals : SetH(v) \/ SetHMin(v) \/ SetHMax(v)
+           \/ \E k \in EVals : Evolve(k)
 Spec == Init /\ [][Next]_vars
 \* read-back: the bounds are exactly what was last set
-Emit == PrintT(<<"EDGE", ToJson([hist |-> hist', h2 |-> h2', hmin2 |-> hmin2', hmax2 |-> hmax2'])>>)
+Emit == PrintT(<<"EDGE", ToJson([hist |-> hist', h2 |-> h2', hmin2 |-> hmin2', hmax2 |-> hmax2', el |-> el'])>>)
 =============================================================================
